@@ -553,6 +553,8 @@ def main_all(tier, seed):
                 for c in gen_memo[suite]:
                     c = dict(c)
                     c["src"] = "gen:" + suite
+                    if plan.get("readers") == "all" and c.get("op") in ("decode", "decode_avps", "decode_payload") and "fault" not in c:
+                        c["rdr"] = "all"
                     cs.append(c)
             for c in cs:
                 k = json.dumps({a: b for a, b in c.items() if a not in ("id", "src")}, sort_keys=True)
@@ -678,6 +680,8 @@ def main():
                     if line.strip():
                         c = json.loads(line)
                         c["src"] = "gen:" + suite
+                        if plan.get("readers") == "all" and c.get("op") in ("decode", "decode_avps", "decode_payload") and "fault" not in c:
+                            c["rdr"] = "all"          # C02: SliceReader + logging reader + queue-backed reader
                         cases.append(c)
         for n, c in enumerate(cases):
             c["id"] = n
